@@ -37,7 +37,52 @@ def worker_init():
     torch.set_num_threads(1)
 
 
+class CaseTimeout(BaseException):
+    """wall-clock guard of one (contract, case): raised by SIGALRM inside the worker"""
+
+
 def run_task(task: dict) -> dict:
+    """Wall-clock guard around one case: a case that does not finish within the limit (pathological expression growth on a
+    changed tree, a solver call that ignores its timeout) is reported as undecided instead of blocking the whole check."""
+    import signal
+
+    limit = int(task.get("wall_limit", 420 if task.get("tier") == "quick" else 2700))
+
+    def _alarm(signum, frame):
+        raise CaseTimeout()
+
+    try:
+        old = signal.signal(signal.SIGALRM, _alarm)
+        signal.alarm(limit)
+        guarded = True
+    except (ValueError, AttributeError):  # not in the main thread of the process
+        guarded = False
+    try:
+        return _run_task(task)
+    except CaseTimeout:
+        timed_out = {"name": "case", "tag": f"wall-clock limit of {limit} s for one case exceeded in the symbolic phase", "kind": "property", "status": "timeout"}
+        # the bounded stand-in of the same contract still runs (it is cheap and decides violations on concrete inputs)
+        try:
+            signal.alarm(max(60, limit // 3))
+            res = _run_task(dict(task, bounded_only=True))
+            res["undecided"].append(timed_out)
+            return res
+        except CaseTimeout:
+            pass
+        return {"contract": task["contract"], "case": _jsonable(task["case"]), "target": "", "error": None,
+                "failed": [], "helper_failed": [], "mustfail_bad": [],
+                "undecided": [{"name": "case", "tag": f"wall-clock limit of {limit} s for one case exceeded", "kind": "property", "status": "timeout"}],
+                "bounded": {"evaluations": 0, "checked": 0, "rejected": 0, "failures": []},
+                "obligations": 0, "proved": 0, "by_status": {}, "by_backend": {}, "solver_time": 0, "paths": 0, "opaque_ops": {}, "concretized": [],
+                "notes": [], "ops_validated": 0, "aten_ops": {}, "samples": [], "functions_called": [], "mustfail_ok": 0, "path_outcomes": [],
+                "proved_names": [], "wall": float(limit)}
+    finally:
+        if guarded:
+            signal.alarm(0)
+            signal.signal(signal.SIGALRM, old)
+
+
+def _run_task(task: dict) -> dict:
     """One (contract, case).  Executed in a worker process."""
     import warnings
 
